@@ -168,3 +168,46 @@ Proof.
     + destruct (O2 a) as [X _]; [intros Y; apply H; apply in_rev; exact Y|]. destruct (O1 a H) as [Z _]. congruence.
     + destruct (O2 a) as [_ X]; [intros Y; apply H; apply in_rev; exact Y|]. destruct (O1 a H) as [_ Z]. congruence.
 Qed.
+
+(* ---------------------------------------------------------------- the end-of-line slots of Segment::justify (addLineEnd / delLineEnd)
+   On a line whose first slot has no predecessor -- what justify assumes of pSlot -- putting a fresh end-of-line slot before it and
+   deleting it again restores every link of every other slot and leaves m_first / m_last alone.  (The recorded defect of right-to-left
+   lines is a call where the slot handed to the second addLineEnd already has a predecessor: the first end-of-line slot.) *)
+Lemma getp_grow l e i : getp (grow l e) i = getp l i.
+Proof.
+  unfold grow, getp. destruct (Nat.lt_ge_cases i (length l)) as [H|H].
+  - apply app_nth1. exact H.
+  - rewrite app_nth2 by exact H. rewrite (nth_overflow l None H). apply nth_repeat.
+Qed.
+Lemma grow_length l e : (length l <= e)%nat -> length (grow l e) = S e.
+Proof. intros H. unfold grow. rewrite app_length, repeat_length. lia. Qed.
+Lemma peq_neq a e : a <> Some e -> peq a (Some e) = false.
+Proof. destruct a as [x|]; cbn; [|reflexivity]. intros H. destruct (Nat.eqb_spec x e); [subst; congruence | reflexivity]. Qed.
+
+Theorem add_del_restores marks s e n :
+  length (p_next s) = length (p_prev s) -> (length (p_next s) <= e)%nat -> (n < length (p_next s))%nat -> getp (p_prev s) n = None ->
+  p_first s <> Some e -> p_last s <> Some e ->
+  exists s1 s2, papply marks s (PAddEnd e (Some n) false) = POk s1 /\ papply marks s1 (PDelEnd e) = POk s2 /\
+    (forall i, i <> e -> getp (p_next s2) i = getp (p_next s) i /\ getp (p_prev s2) i = getp (p_prev s) i) /\
+    p_first s2 = p_first s /\ p_last s2 = p_last s.
+Proof.
+  intros Hlen He Hn Hp Hf Hl. destruct s as [nx pv fst lst]. cbn [p_next p_prev p_first p_last] in *.
+  assert (Hne : n <> e) by lia.
+  eexists. eexists. split; [cbn [papply p_next p_prev p_first p_last]; reflexivity|].
+  assert (Lnx : length (setp (setp (grow nx e) e None) e (Some n)) = S e) by (rewrite !setp_length; apply grow_length; exact He).
+  assert (Lpv0 : length (setp (grow pv e) e None) = S e) by (rewrite setp_length; apply grow_length; lia).
+  cbn [papply p_next p_prev p_first p_last].
+  rewrite (getp_setp_same _ e (Some n)) by (rewrite setp_length, grow_length; lia).
+  assert (G1 : getp (setp (grow pv e) e None) n = None) by (rewrite getp_setp_other by lia; rewrite getp_grow; exact Hp).
+  rewrite G1.
+  assert (G2 : getp (setp (setp (setp (grow pv e) e None) e None) n (Some e)) e = None).
+  { rewrite getp_setp_other by lia. apply getp_setp_same. rewrite setp_length, grow_length; lia. }
+  rewrite G2.
+  rewrite (peq_neq _ _ Hf), (peq_neq _ _ Hl).
+  split; [reflexivity|]. cbn [p_next p_prev p_first p_last]. split; [|split; reflexivity].
+  intros i Hi. split.
+  - rewrite !(getp_setp_other _ e i) by lia. apply getp_grow.
+  - rewrite (getp_setp_other _ e i) by lia. destruct (Nat.eq_dec i n) as [->|Hin].
+    + rewrite getp_setp_same by (rewrite !setp_length, grow_length; lia). symmetry. exact Hp.
+    + rewrite !(getp_setp_other _ n i) by lia. rewrite !(getp_setp_other _ e i) by lia. apply getp_grow.
+Qed.
